@@ -1057,6 +1057,8 @@ def signature(v: T.Dict[str, T.Any], c: T.Dict[str, T.Any]) -> str:
             return f'RewriterCrashed@{fc[6:]}'
         if fc and 'Rewriting the meson.build failed' not in fc:
             return f'RewriterFailed@{fc[6:]}'
+    if 'multi-line-literal-with-blank-before-newline' in fts:
+        return f'{clause}@re-printed statement@multi-line-literal-with-blank-before-newline'
     if fts:
         step = v.get('step', 0)
         cmd = c['log'][step]['cmd']
